@@ -54,6 +54,185 @@ func runC01(c *Ctx) {
 	c.r017(pk)
 	c.r018(pk)
 	c.r019(pk, "R01.9")
+	c.r0110(pk)
+	c.r0111(pk)
+	c.r0112(pk)
+}
+
+// R01.10: the string-merge only reads operands of nodes it has checked to be additions.
+func (c *Ctx) r0110(pk *packages.Package) {
+	const rule = "R01.10"
+	c.R.Rule(rule, "in mergeBinaryExpr (which fuses adjacent string operands of a chain of `+`), every read of an operand V.X / V.Y of a *js.BinaryExpr variable V as a string literal (type assertion to *js.LiteralExpr) is dominated by the true outcome of V.Op == js.AddToken for that same V (loop conditions count): the belief `this node is an addition` is stated for expr and left and must hold for every node whose operands are merged — otherwise `a-\"1\"+\"2\"` becomes `a+\"12\"`")
+	info := pk.TypesInfo
+	fd := c.fn(rule, pk, "mergeBinaryExpr")
+	if fd == nil {
+		return
+	}
+	g := c.graph(pk, fd)
+	n := 0
+	for _, y := range g.Nodes {
+		a := y.Ast()
+		if a == nil || y.Kind == flow.KRange || y.Kind == flow.KSelect {
+			continue
+		}
+		ast.Inspect(a, func(x ast.Node) bool {
+			ta, ok := x.(*ast.TypeAssertExpr)
+			if !ok || ta.Type == nil || namedTypeName(info.TypeOf(ta.Type)) != pjs+".LiteralExpr" {
+				return true
+			}
+			sel, ok := ast.Unparen(ta.X).(*ast.SelectorExpr)
+			if !ok || (sel.Sel.Name != "X" && sel.Sel.Name != "Y") || namedTypeName(info.TypeOf(sel.X)) != pjs+".BinaryExpr" {
+				return true
+			}
+			n++
+			v := str(sel.X)
+			guarded := false
+			for _, f := range g.DomFacts(y) {
+				if f.Value && f.Test.Kind == flow.KCond && nospace(str(f.Test.Expr)) == v+".Op==js.AddToken" {
+					guarded = true
+				}
+			}
+			c.R.Check(guarded, rule, fmt.Sprintf("js.mergeBinaryExpr/%s read as string operand#%d", str(ta.X), n), c.pos(ta), "dominated by "+v+".Op == js.AddToken",
+				"the operand of "+v+" is merged into the string although "+v+".Op was never checked to be `+`: a subtraction (or any other operator) in the chain is silently replaced by concatenation")
+			return true
+		})
+	}
+	c.R.Floor(rule, "string operand reads", n, 3)
+}
+
+// R01.11: function bodies are printed with the for-init flag isolated.
+func (c *Ctx) r0111(pk *packages.Package) {
+	const rule = "R01.11"
+	c.R.Rule(rule, "a `for` statement printed inside a nested function body ends with m.inFor = false; every printing of a function body block (minifyBlockStmt(&decl.Body) in minifyFuncDecl / minifyMethodDecl / minifyArrowFunc) must therefore run with m.inFor saved, cleared and restored — either around that call inside the function, or in every expression-printer case that calls the function (cases of minifyExpr; the MethodDecl case is reached only through the ObjectExpr and ClassDecl cases, which must save it; calls from the statement printer and from minifyClassDecl are outside any for-init). Otherwise the remainder of an enclosing for-init prints `in` without its parentheses: `for(var a=()=>{for(;;);},b=(c in d);;)`")
+	info := pk.TypesInfo
+	ex := c.fn(rule, pk, "jsMinifier.minifyExpr")
+	if ex == nil {
+		return
+	}
+	eg := c.graph(pk, ex)
+	caseSaves := func(label string) bool {
+		for _, y := range eg.Nodes {
+			a := y.Ast()
+			if a == nil || y.Kind != flow.KStmt || c.caseLabel(a) != label {
+				continue
+			}
+			if as, ok := y.Stmt.(*ast.AssignStmt); ok && as.Tok == token.DEFINE {
+				for _, r := range as.Rhs {
+					if isField(info, r, jsMinT, "inFor") {
+						return true
+					}
+				}
+			}
+		}
+		return false
+	}
+	for _, fname := range []string{"jsMinifier.minifyFuncDecl", "jsMinifier.minifyMethodDecl", "jsMinifier.minifyArrowFunc"} {
+		fd := c.fn(rule, pk, fname)
+		if fd == nil {
+			continue
+		}
+		g := c.graph(pk, fd)
+		construct := "js." + fname + "/function body printed with inFor isolated"
+		var body *flow.Node
+		for _, y := range g.Nodes {
+			if a := y.Ast(); a != nil && y.Kind == flow.KStmt {
+				for _, call := range findCalls(info, a, false, jsBlockStmt) {
+					if strings.HasSuffix(selPath(call.Args[0]), ".Body") {
+						body = y
+					}
+				}
+			}
+		}
+		if body == nil {
+			c.R.Unres(rule, construct, c.pos(fd), "minifyBlockStmt(&decl.Body) not found")
+			continue
+		}
+		// (a) cleared inside the function on every path to the body
+		cleared := func(y *flow.Node) bool {
+			rhs, ok := assignsTo(y, func(l ast.Expr) bool { return isField(info, l, jsMinT, "inFor") })
+			return ok && str(rhs) == "false"
+		}
+		if g.MustPassBefore(body, cleared, flow.Search{}) == nil {
+			c.R.OK(rule, construct, c.pos(body.Ast()), "m.inFor cleared before the body inside the function (restore: R01.3)")
+			continue
+		}
+		// (b) every call site isolates
+		obj := info.Defs[fd.Name]
+		var bad []string
+		sites := 0
+		for _, caller := range load.FuncDecls(pk) {
+			ast.Inspect(caller.Body, func(x ast.Node) bool {
+				call, ok := x.(*ast.CallExpr)
+				if !ok || callee(info, call) != obj {
+					return true
+				}
+				sites++
+				cn := load.FuncName(caller)
+				switch cn {
+				case "jsMinifier.minifyStmt", "jsMinifier.minifyClassDecl":
+					return true // statement context / class members: not inside a for-init expression
+				case "jsMinifier.minifyExpr":
+					label := c.caseLabel(call)
+					if label == "case *js.MethodDecl" {
+						if !caseSaves("case *js.ObjectExpr") || !caseSaves("case *js.ClassDecl") {
+							bad = append(bad, "methods are printed from the ObjectExpr / ClassDecl cases, which do not both save m.inFor")
+						}
+						return true
+					}
+					if !caseSaves(label) {
+						bad = append(bad, "the "+label+" of minifyExpr calls it without saving m.inFor")
+					}
+				default:
+					bad = append(bad, "called from "+cn+" without isolation")
+				}
+				return true
+			})
+		}
+		c.R.Check(len(bad) == 0 && sites > 0, rule, construct, c.pos(body.Ast()), fmt.Sprintf("all %d call sites isolate m.inFor", sites), strings.Join(bad, "; "))
+	}
+}
+
+// R01.12: a parameter with an effectful default is not dropped.
+func (c *Ctx) r0112(pk *packages.Package) {
+	const rule = "R01.12"
+	c.R.Rule(rule, "in jsMinifier.minifyParams the loop that drops unused trailing parameters continues to the next parameter only through an outcome showing that the parameter's Default is nil or has no side effects (a test on <param>.Default): dropping `b=g()` from `function f(a,b=g()){}` deletes the call g() made whenever f is called with one argument")
+	info := pk.TypesInfo
+	fd := c.fn(rule, pk, "jsMinifier.minifyParams")
+	if fd == nil {
+		return
+	}
+	g := c.graph(pk, fd)
+	// the decrement j-- of the removal loop
+	var dec *flow.Node
+	for _, y := range g.Nodes {
+		if s, ok := y.Stmt.(*ast.IncDecStmt); ok && y.Kind == flow.KStmt && s.Tok == token.DEC {
+			dec = y
+		}
+	}
+	construct := "js.jsMinifier.minifyParams/unused parameter removal respects defaults"
+	if dec == nil {
+		c.R.Unres(rule, construct, c.pos(fd), "removal loop (decrement) not found")
+		return
+	}
+	defaultOK := func(y *flow.Node) bool {
+		if (y.Kind != flow.KTrue && y.Kind != flow.KFalse) || y.Of.Kind != flow.KCond {
+			return false
+		}
+		e := ast.Unparen(y.Of.Expr)
+		if b, ok := e.(*ast.BinaryExpr); ok && isNilExpr(b.Y) {
+			if _, f := fieldOf(info, b.X); f == "Default" {
+				return (b.Op == token.EQL) == (y.Kind == flow.KTrue)
+			}
+		}
+		if call := isCall(info, e, load.Mod+"/js.hasSideEffects"); call != nil && y.Kind == flow.KFalse {
+			if _, f := fieldOf(info, call.Args[0]); f == "Default" {
+				return true
+			}
+		}
+		return false
+	}
+	p := g.MustPassBefore(dec, defaultOK, flow.Search{})
+	c.R.Check(p == nil, rule, construct, c.pos(dec.Stmt), "continues only for parameters without an effectful default", "an unused trailing parameter is dropped without looking at its default value expression: "+pathStr(c, g, p))
 }
 
 // R01.9 / R09.3: BigInt literals keep their suffix and never go through minify.Number.
@@ -722,7 +901,8 @@ func (c *Ctx) r013(pk *packages.Package, rule string, only map[string]bool) {
 				// every path from the save to exit that passes a clobber must pass a restore afterwards
 				var clobbers []*flow.Node
 				for _, x := range g.Nodes {
-					if isClobber(x) && g.Path(flow.Search{From: []*flow.Node{n}, Goal: func(y *flow.Node) bool { return y == x }}) != nil {
+					// only modifications inside the save's own region: reachable from the save before its restore
+					if isClobber(x) && g.Path(flow.Search{From: []*flow.Node{n}, Goal: func(y *flow.Node) bool { return y == x }, Avoid: isRestore}) != nil {
 						clobbers = append(clobbers, x)
 					}
 				}
@@ -1448,6 +1628,12 @@ func init() {
 	mutant(&Mutant{Name: "c01-call-args-at-comma-level", Property: "C01", File: "js/js.go",
 		Old: "\t\tif item.Rest {\n\t\t\tm.write(ellipsisBytes)\n\t\t}\n\t\tm.minifyExpr(item.Value, js.OpAssign)", New: "\t\tif item.Rest {\n\t\t\tm.write(ellipsisBytes)\n\t\t}\n\t\tm.minifyExpr(item.Value, js.OpExpr)",
 		Rule: "R01.8", Construct: "minifyExpr(Arg.Value)"})
+	mutant(&Mutant{Name: "c01-merge-unchecked-operator", Property: "C01", File: "js/util.go",
+		Old: "ok && newLeft.Op == js.AddToken {", New: "ok {",
+		Rule: "R01.10", Construct: "newLeft.Y read as string operand"})
+	mutant(&Mutant{Name: "c01-params-ignore-default", Property: "C01", File: "js/js.go",
+		Old: " || hasSideEffects(params.List[j-1].Default)", New: "",
+		Rule: "R01.12", Construct: "unused parameter removal"})
 	mutant(&Mutant{Name: "c01-math-without-decl", Property: "C01", File: "js/js.go",
 		Old: "ok && v.Decl == js.NoDecl && bytes.Equal(v.Data, MathBytes)", New: "ok && bytes.Equal(v.Data, MathBytes)",
 		Rule: "R01.5", Construct: "v is global Math"})
